@@ -178,8 +178,14 @@ struct Encoding<LogicalBuffer<BufferType, SizeType, IsUnbounded>,
   }
 
   static constexpr std::size_t Size(const Type& value) {
-    const std::size_t size =
-        static_cast<std::size_t>(value.size()) * sizeof(ValueType);
+    // A size member that exceeds the capacity is rejected by WritePayload.
+    // Clamp it here so that the estimate cannot wrap around: a negative value
+    // in a signed size member converts to a count near 2^64.
+    std::size_t count = static_cast<std::size_t>(value.size());
+    if (!IsUnbounded && count > Length)
+      count = Length;
+
+    const std::size_t size = count * sizeof(ValueType);
     return BaseEncodingSize(Prefix(value)) +
            Encoding<WireSizeType>::Size(size) + size;
   }
